@@ -18,10 +18,19 @@ type vCtx struct {
 }
 
 // tiny primes for the engine, realistic ones natively (same shape: 3 Q primes, 1 P prime)
-func VerifSetup_Ctx(algebraic bool) *vCtx {
+func VerifSetup_Ctx(algebraic bool) *vCtx { return VerifSetup_CtxTier(algebraic, 0) }
+
+// VerifSetup_CtxTier: the thorough tier runs the same harnesses on a longer chain with two auxiliary primes.
+func VerifSetup_CtxTier(algebraic bool, tier int) *vCtx {
 	lit := ParametersLiteral{LogN: 4, LogQ: []int{50, 40, 40}, LogP: []int{45}, LogDefaultScale: 40}
 	if algebraic {
 		lit = ParametersLiteral{LogN: 4, Q: []uint64{12289, 257, 193}, P: []uint64{769}, LogDefaultScale: 8}
+	}
+	if tier > 0 {
+		lit = ParametersLiteral{LogN: 4, LogQ: []int{50, 40, 40, 40, 40}, LogP: []int{45, 45}, LogDefaultScale: 40}
+		if algebraic {
+			lit = ParametersLiteral{LogN: 4, Q: []uint64{12289, 257, 193, 1153, 3137}, P: []uint64{769, 7681}, LogDefaultScale: 8}
+		}
 	}
 	params, err := NewParametersFromLiteral(lit)
 	if err != nil {
@@ -37,7 +46,7 @@ func VerifSetup_Ctx(algebraic bool) *vCtx {
 
 func vSetup() (*vCtx, *Evaluator) {
 	vConfig("algebraic-samplers", "1")
-	c := VerifSetup_Ctx(vIsAlgebraic())
+	c := VerifSetup_CtxTier(vIsAlgebraic(), vTier())
 	c.Kgen.GenSecretKey(c.Sk)
 	rlk := c.Kgen.GenRelinearizationKeyNew(c.Sk)
 	eval := c.Eval.WithKey(rlwe.NewMemEvaluationKeySet(rlk))
